@@ -415,6 +415,12 @@ Definition wf_request (r : request) : bool :=
   nodup_ci (map hf_name (all_fields r)) &&
   wf_framing (q_framing r).
 
+(* a request asking for a protocol upgrade (HttpParser.is_connection_upgrade): after forwarding it the
+   proxy relays the client's bytes as they are *)
+Definition has_field (lname : bytes) (r : request) : bool := existsb (name_is lname) (all_fields r).
+Definition is_upgrade_request (r : request) : bool :=
+  bytes_eqb (q_version r) HTTP_1_1 && has_field (bs "connection") r && has_field (bs "upgrade") r.
+
 (* configuration domain: the Via entry is a proper field value; the operator does not disable the
    framing fields (removing them cannot preserve the message) *)
 Definition wf_cfg (cfg : fcfg) : bool :=
